@@ -7,10 +7,18 @@ The source pushes results into a `&mut impl DateTimeList`; the translation threa
 returns it. The source's `get_time` closure memoises its last answer in `last_cached_time`; the translation keeps
 that state (it is threaded through the loop); the model has no cache — the equality below therefore contains the
 proof that the cache is transparent.
+
+The proof never restates generated text. The `let`s of the translated function are lifted into the context
+(`extract_lets`); the closure `get_time` is replaced by its specification `GetTimeSpec` (memo invariant
+`CacheInv`); each of the two loops is cut out of the goal with `generalize … Src.forInR _ _ _ = R` and handed to
+the loop lemma of SrcEqFindLoops.lean (`trans_loop`, `rule_loop`), whose hypothesis `hf` — one iteration of the
+translated body against one iteration of the model (`transStep`, `ruleStep`) — is proved here by following the
+body's branches.
 -/
 import TzVerif.Generated.Src
 import TzVerif.Model.Find
 import TzVerif.Proofs.SrcEqZone
+import TzVerif.Proofs.SrcEqFindLoops
 
 namespace TzVerif.Proofs.SrcEq
 open TzVerif TzVerif.Model TzVerif.Gen
@@ -18,6 +26,242 @@ open TzVerif TzVerif.Model TzVerif.Gen
 /-- the whole search, both loops, the memoising closure and every early return included -/
 theorem find_date_time_eq (y mo d h mi s ns : Int) (z : TimeZone) :
     Src.find_date_time [] y mo d h mi s ns z = findDateTime y mo d h mi s ns z := by
-  sorry
+  unfold Src.find_date_time
+  -- the `let`s of the translated function, the closure included, become local definitions
+  extract_lets transitions ltts er mk utc c0 get_time pt0 pi0
+  -- the closure meets its specification: a hit returns what the invariant says, a miss recomputes
+  have hgt : GetTimeSpec z utc get_time := by
+    intro c k hc
+    have hf := getTime_fresh z utc k
+    cases c with
+    | none =>
+      exact hf
+    | some iv =>
+      obtain ⟨i, v⟩ := iv
+      by_cases hik : i = (k : Int)
+      · subst hik
+        have := hc k v rfl
+        rw [this]
+        refine ⟨_, hc, ?_⟩
+        simp only [get_time, decide_true, if_true]
+      · simp only [get_time, hik, decide_false, Bool.false_eq_true, if_false]
+        exact hf
+  clear_value get_time
+  have hutc : utc = unixTime y mo d h mi s := unix_time_eq y mo d h mi s
+  have hmk : mk = mkDateTime y mo d h mi s ns := rfl
+  have htr : transitions = z.transitions := rfl
+  have hlt : ltts = z.localTimeTypes := rfl
+  have her : er = z.extraRule := rfl
+  have hc0 : c0 = none := rfl
+  have hpt0 : pt0 = i64Min := rfl
+  have hpi0 : pi0 = ((0 : Nat) : Int) := rfl
+  clear_value utc mk transitions ltts er c0 pt0 pi0
+  subst hutc hmk htr hlt her hc0 hpt0 hpi0
+  unfold findDateTime
+  -- no transition and no rule
+  by_cases h0 : z.transitions.isEmpty = true ∧ z.extraRule.isNone = true
+  · rw [if_pos h0, if_pos (by simp only [Bool.and_eq_true]; exact h0), dt_new_eq]
+    have : Src.idx z.localTimeTypes 0 = z.localTimeTypes.getD 0 default := rfl
+    rw [this]
+    cases DateTime.new y mo d h mi s ns (z.localTimeTypes.getD 0 default) <;> rfl
+  rw [if_neg h0, if_neg (by simp only [Bool.and_eq_true]; exact h0), check_date_time_inputs_eq]
+  cases checkDateTimeInputs y mo d h mi s ns with
+  | error e => rfl
+  | ok u =>
+  dsimp -zeta only
+  -- the first loop (statement `if !transitions.is_empty() { … for … }`)
+  generalize hA : (if (!z.transitions.isEmpty) = true then _ else _ : Src.Flow (Except TzError (List Found)) (List Found)) = A
+  have hA' : A = match findTransitionsLoop z (mkDateTime y mo d h mi s ns) ns (unixTime y mo d h mi s) z.extraRule.isSome z.transitions i64Min 0 [] with
+      | .error e => .ret (.error e)
+      | .ok acc => .val acc := by
+    subst hA
+    cases htr : z.transitions with
+    | nil =>
+      rw [if_neg (by decide)]
+      rfl
+    | cons tr0 rest0 =>
+      rw [if_pos (by rfl), ← htr]
+      generalize hR : Src.forInR _ _ _ = R
+      have hl := trans_loop z (mkDateTime y mo d h mi s ns) ns (unixTime y mo d h mi s) z.extraRule.isSome (z.transitions.length : Int) _
+        ?hf z.transitions 0 none [] i64Min 0 (by omega) (CacheInv.none _ _) R hR
+      case hf =>
+        -- one iteration of the translated body `B` against `transStep`
+        intro c acc pt pi index tr hc B hB
+        simp only [idx_nat, check_unix_time_eq, unix_leap_time_to_unix_time_eq, dt_from_timespec_and_local_eq,
+          Bool.and_eq_true, decide_eq_true_eq] at hB
+        unfold transStep
+        have hg1 := hgt c pi hc
+        cases hgm : getTime z (unixTime y mo d h mi s) pi with
+        | error e =>
+          rw [hgm] at hg1; dsimp only at hg1 ⊢
+          rw [hg1] at hB; subst hB; rfl
+        | ok v =>
+          obtain ⟨ub, ulb⟩ := v
+          rw [hgm] at hg1; dsimp only at hg1 ⊢
+          obtain ⟨c1, hc1, hg1⟩ := hg1
+          rw [hg1] at hB
+          dsimp only at hB
+          by_cases h1 : pt ≤ ulb ∧ ulb < tr.unixLeapTime
+          · rw [if_pos h1]; rw [if_pos h1] at hB
+            cases hcu : checkUnixTime ub with
+            | error e => rw [hcu] at hB; dsimp only at hB ⊢; subst hB; rfl
+            | ok u => rw [hcu] at hB; dsimp only at hB ⊢; subst hB; exact ⟨c1, hc1, rfl⟩
+          · rw [if_neg h1]; rw [if_neg h1] at hB
+            cases hm : (decide (index < ↑z.transitions.length - 1) || z.extraRule.isSome) with
+            | false =>
+              rw [hm] at hB
+              rw [if_neg (by decide)]; rw [if_neg (by decide)] at hB
+              dsimp only at hB; subst hB; exact ⟨c1, hc1, rfl⟩
+            | true =>
+              rw [hm] at hB
+              rw [if_pos rfl]; rw [if_pos rfl] at hB
+              have hg2 := hgt c1 tr.localTimeTypeIndex hc1
+              cases hgm2 : getTime z (unixTime y mo d h mi s) tr.localTimeTypeIndex with
+              | error e =>
+                rw [hgm2] at hg2; dsimp only at hg2 ⊢
+                rw [hg2] at hB; subst hB; rfl
+              | ok w =>
+                obtain ⟨ua, ula⟩ := w
+                rw [hgm2] at hg2; dsimp only at hg2 ⊢
+                obtain ⟨c2, hc2, hg2⟩ := hg2
+                rw [hg2] at hB
+                dsimp only at hB
+                by_cases h2 : ulb ≥ tr.unixLeapTime ∧ ula < tr.unixLeapTime
+                · rw [if_pos h2]; rw [if_pos h2] at hB
+                  cases hu : unixLeapTimeToUnixTime z.leapSeconds tr.unixLeapTime with
+                  | error e => rw [hu] at hB; dsimp only at hB ⊢; subst hB; rfl
+                  | ok tut =>
+                    rw [hu] at hB; dsimp only at hB ⊢
+                    cases hb : DateTime.fromTimespecAndLocal tut ns (z.localTimeTypes.getD pi default) with
+                    | error e => rw [hb] at hB; dsimp only at hB ⊢; subst hB; rfl
+                    | ok b =>
+                      rw [hb] at hB; dsimp only at hB ⊢
+                      cases ha : DateTime.fromTimespecAndLocal tut ns (z.localTimeTypes.getD tr.localTimeTypeIndex default) with
+                      | error e => rw [ha] at hB; dsimp only at hB ⊢; subst hB; rfl
+                      | ok a => rw [ha] at hB; dsimp only at hB ⊢; subst hB; exact ⟨c2, hc2, rfl⟩
+                · rw [if_neg h2]; rw [if_neg h2] at hB
+                  dsimp only at hB; subst hB; exact ⟨c2, hc2, rfl⟩
+      clear hR
+      cases hfl : findTransitionsLoop z (mkDateTime y mo d h mi s ns) ns (unixTime y mo d h mi s) z.extraRule.isSome z.transitions i64Min 0 [] with
+      | error e => rw [hfl] at hl; dsimp only at hl; subst hl; rfl
+      | ok acc => rw [hfl] at hl; dsimp only at hl; obtain ⟨c', pt', pi', hl⟩ := hl; subst hl; rfl
+  rw [hA']; clear hA hA' A
+  -- the rule part
+  extract_lets +onlyGivenNames mk' utc'
+  have hmk' : mk' = mkDateTime y mo d h mi s ns := rfl
+  have hutc' : utc' = unixTime y mo d h mi s := rfl
+  clear_value mk' utc'
+  subst hmk' hutc'
+  cases findTransitionsLoop z (mkDateTime y mo d h mi s ns) ns (unixTime y mo d h mi s) z.extraRule.isSome z.transitions i64Min 0 [] with
+  | error e => rfl
+  | ok acc =>
+  dsimp -zeta only
+  cases z.extraRule with
+  | none => rfl
+  | some rule =>
+  cases rule with
+  | fixed ltt =>
+    dsimp only
+    rw [check_unix_time_eq]
+    cases z.transitions.getLast? with
+    | none =>
+      dsimp only
+      rw [if_pos rfl]
+      cases checkUnixTime (unixTime y mo d h mi s - ltt.utOffset) <;> rfl
+    | some last =>
+      dsimp only
+      rw [unix_leap_time_to_unix_time_eq]
+      cases unixLeapTimeToUnixTime z.leapSeconds last.unixLeapTime with
+      | error e => rfl
+      | ok t =>
+        dsimp only
+        cases decide (unixTime y mo d h mi s - ltt.utOffset ≥ t) with
+        | false => rfl
+        | true =>
+          dsimp only
+          rw [if_pos rfl]
+          cases checkUnixTime (unixTime y mo d h mi s - ltt.utOffset) <;> rfl
+  | alternate a =>
+    dsimp -zeta only
+    extract_lets stdOff dstOff utStd utDst st et att0 sortedS attSw att tstart tend ats times0 sortedM times tStart tEnd steps prev
+    rw [check_unix_time_eq utStd, check_unix_time_eq utDst]
+    cases checkUnixTime utStd with
+    | error e => rfl
+    | ok u1 =>
+    dsimp -zeta only
+    cases checkUnixTime utDst with
+    | error e => rfl
+    | ok u2 =>
+    dsimp -zeta only
+    have hg : (!(decide (-2147483648 + 2 ≤ y) && decide (y ≤ 2147483647 - 2)))
+        = (!(decide (i32Min + guardFindYearMarginLow ≤ y) && decide (y ≤ i32Max - guardFindYearMarginHigh))) := rfl
+    rw [hg]
+    cases (!(decide (i32Min + guardFindYearMarginLow ≤ y) && decide (y ≤ i32Max - guardFindYearMarginHigh))) with
+    | true => rfl
+    | false =>
+    rw [if_neg (by decide), if_neg (by decide)]
+    have hatt0 : att0 = times0 := by
+      simp only [att0, times0, rule_day_unix_time_eq]; rfl
+    have hsorted : sortedS = sortedM := by
+      simp only [sortedS, sortedM, hatt0, windows2All_eq]
+    have hatt : att = times := by
+      simp only [att, times, attSw, hsorted, hatt0, swapPairs_eq]
+      cases sortedM <;> rfl
+    have hats : ats.map toStep = steps := by
+      simp only [ats, steps, hsorted]
+      cases sortedM <;> rfl
+    clear_value att ats times steps
+    subst hatt hats
+    have hlit : (-9223372036854775808 : Int) = i64Min := rfl
+    rw [hlit]
+    dsimp only [prev]
+    clear_value att0 sortedS attSw tstart tend times0 sortedM tStart tEnd
+    clear hg hatt0 hsorted prev
+    -- both arms of `transitions.last()` leave the same goal, for a previous transition time `P`
+    rcases z.transitions.getLast? with _ | last
+    case' none => dsimp only; generalize i64Min = P
+    case' some =>
+      dsimp only
+      rw [unix_leap_time_to_unix_time_eq]
+      rcases unixLeapTimeToUnixTime z.leapSeconds last.unixLeapTime with e | P
+      case' error => exact rfl
+      case' ok => dsimp only
+    all_goals
+      have hp := position_drop0 P att ats
+      rw [toSteps_zip] at hp
+      cases hpos : Src.position (fun unix_time => decide (P < unix_time)) att with
+      | none =>
+        rw [hpos] at hp; dsimp only at hp ⊢
+        rw [hp, findRuleLoop]
+      | some k =>
+        rw [hpos] at hp; dsimp only at hp ⊢
+        generalize hR : Src.forInR _ _ _ = R
+        have hl := rule_loop (mkDateTime y mo d h mi s ns) ns _ ?hf _ acc P R hR
+        case hf =>
+          intro acc prev t x B hB
+          obtain ⟨b, a, ub, ua⟩ := x
+          simp only [dt_from_timespec_and_local_eq, Bool.and_eq_true, decide_eq_true_eq] at hB
+          unfold ruleStep toStep
+          dsimp only
+          by_cases h1 : prev ≤ ub ∧ ub < t
+          · rw [if_pos h1]; rw [if_pos h1] at hB
+            dsimp only at hB ⊢; subst hB; rfl
+          · rw [if_neg h1]; rw [if_neg h1] at hB
+            by_cases h2 : ub ≥ t ∧ ua < t
+            · rw [if_pos h2]; rw [if_pos h2] at hB
+              cases hb : DateTime.fromTimespecAndLocal t ns b with
+              | error e => rw [hb] at hB; dsimp only at hB ⊢; subst hB; rfl
+              | ok b' =>
+                rw [hb] at hB; dsimp only at hB ⊢
+                cases ha : DateTime.fromTimespecAndLocal t ns a with
+                | error e => rw [ha] at hB; dsimp only at hB ⊢; subst hB; rfl
+                | ok a' => rw [ha] at hB; dsimp only at hB ⊢; subst hB; rfl
+            · rw [if_neg h2]; rw [if_neg h2] at hB
+              dsimp only at hB ⊢; subst hB; rfl
+        rw [hp] at hl
+        clear hR
+        cases hfr : findRuleLoop (mkDateTime y mo d h mi s ns) ns (dropUntil P (att.zip (List.map toStep ats))) P acc with
+        | error e => rw [hfr] at hl; dsimp only at hl; subst hl; rfl
+        | ok acc' => rw [hfr] at hl; dsimp only at hl; obtain ⟨p', hl⟩ := hl; subst hl; rfl
 
 end TzVerif.Proofs.SrcEq
